@@ -30,7 +30,7 @@ func main() {
 	sup.Main(sup.Prop{
 		ID:    "C06",
 		Level: "fault_enumeration",
-		Rule:  "generated cache histories (initial remote tree of 0–6 nodes; writes, stream writes, mkdirs, removes, copies, reads, one or several Commits; path spellings; child views) run on fscache.Cache over a memory or disk remote and on the tree model; (a) the whole remote tree is compared with its last committed state after EVERY cache operation; (b) after every successful Commit the remote tree must equal the model tree (the successful operations applied directly); (c) fault: the remote is wrapped in a fault-injecting decorator, a dry run counts the remote calls of the final Commit and EVERY position is failed once – Commit must report the failure, and a later fault-free Commit must succeed and leave remote = model. clean stratum (no operation matching a listed finding's trigger): every divergence is a violation; trigger stratum: unrestricted, a divergence must satisfy a listed finding's class predicate; witness: the findings' minimal histories replayed verbatim; conc: 2–16 independent caches (each with its own memory remote) writing, copying inside the cache and committing at the same time – after every successful Commit the remote files equal what was written through that cache. distinct = distinct operation sequences; non-trivial = ≥1 successful mutation",
+		Rule:  "generated cache histories (initial remote tree of 0–6 nodes; writes, stream writes, mkdirs, removes, copies, reads, one or several Commits; path spellings; child views) run on fscache.Cache over a memory or disk remote and on the tree model; (a) the whole remote tree is compared with its last committed state after EVERY cache operation; (b) after every successful Commit the remote tree must equal the model tree (the successful operations applied directly); (c) fault: the remote is wrapped in a fault-injecting decorator, a dry run counts the remote calls of the final Commit and EVERY position is failed once – Commit must report the failure, and a later fault-free Commit (at every other position preceded by one more write through the cache) must succeed and leave remote = model. clean stratum (no operation matching a listed finding's trigger): every divergence is a violation; trigger stratum: unrestricted, a divergence must satisfy a listed finding's class predicate; witness: the findings' minimal histories replayed verbatim; conc: 2–16 independent caches (each with its own memory remote) writing, copying inside the cache and committing at the same time – after every successful Commit the remote files equal what was written through that cache. distinct = distinct operation sequences; non-trivial = ≥1 successful mutation",
 		Assumptions: []string{
 			"the expected tree is defined through the operations the cache reported as successful; a history in which the cache accepts an operation the tree model rejects is ambiguous and excluded",
 			"fault enumeration is done on clean-stratum histories",
